@@ -75,4 +75,21 @@ static inline unsigned long rt_fshl64(unsigned long a, unsigned long b, unsigned
 static inline unsigned long rt_fshr64(unsigned long a, unsigned long b, unsigned long c) { c &= 63; return c ? (a << (64 - c)) | (b >> c) : b; }
 static inline unsigned int rt_fshl32(unsigned int a, unsigned int b, unsigned int c) { c &= 31; return c ? (a << c) | (b >> (32 - c)) : a; }
 static inline unsigned int rt_fshr32(unsigned int a, unsigned int b, unsigned int c) { c &= 31; return c ? (a << (32 - c)) | (b >> c) : b; }
+#include <math.h>
+#define rt_floor_f64(x) floor(x)
+#define rt_ceil_f64(x) ceil(x)
+#define rt_round_f64(x) round(x)
+#define rt_trunc_f64(x) trunc(x)
+#define rt_fabs_f64(x) fabs(x)
+#define rt_floor_f32(x) floorf(x)
+#define rt_ceil_f32(x) ceilf(x)
+#define rt_round_f32(x) roundf(x)
+#define rt_fabs_f32(x) fabsf(x)
+#ifdef __CPROVER__
+#define rt_round_f80(x) ((fp80_t)round((double)(x)))   /* callers round small magnitudes (intercepts, widths) */
+#define rt_fabs_f80(x) ((x) < 0 ? -(x) : (x))
+#else
+#define rt_round_f80(x) roundl(x)
+#define rt_fabs_f80(x) fabsl(x)
+#endif
 #endif
